@@ -123,7 +123,7 @@ theorem viewGet_spec (w : World) (hc : w.Core) (q : Q) (e : Entity) (it : Item) 
   · rintro ⟨a, i, ar, r, hl, hg, ha, hr, hs, rfl⟩
     have ht := hc.row_types a ar i r ha hr
     obtain ⟨r', hr', hid⟩ := hc.loc_row _ _ _ hl
-    rw [World.rowAt_eq ha hr] at hr'
+    rw [World.rowAt_eq_archs ha hr] at hr'
     cases hr'
     exact ⟨a, i, ar, r, hl, hg, ha, hr, hid, ht ▸ hs, Q.item_eq_specItem q _ _ ht⟩
   · rintro ⟨a, i, ar, r, hl, hg, ha, hr, -, hs, rfl⟩
